@@ -365,7 +365,7 @@ func genE2E12(r *rand.Rand) e2eCase {
 	st, from := newGraph(ctx, "?g", ts), "?g"
 	shapeRoll := r.Intn(7)
 	multi := r.Intn(3) == 0 || (shapeRoll == 5 && r.Intn(2) == 0) // full scans (the push-down shape) more often over several graphs
-	if multi { // the data split over 2-3 graphs in FROM (with overlaps): the driver is asked once per graph
+	if multi {                                                    // the data split over 2-3 graphs in FROM (with overlaps): the driver is asked once per graph
 		st, from, c.Graphs = splitGraphs(ctx, r, ts)
 		c.Kinds = append(c.Kinds, "FROM "+from)
 	}
